@@ -470,6 +470,20 @@ def run_shard(spec, res):
                 run_life(ld, 3, h, res)
         for _ in range(spec['nlife'] // spec['mod']):
             run_life(ld, 3, random_history(rng), res)
+        # a few hundred examples (beyond 2^8 stores through one object):
+        # filled once, then every later pass - same object, a copy, a reopened
+        # directory - is served from the store
+        big = [(129, 0), (256, 1), (257, 2), (600, 3)]
+        for n, r_ in big:
+            if r_ % spec['mod'] != spec['rem']:
+                continue
+            for first in (('get', 'iter', n - 1, 0), ('get', 'items', 0, 0)):
+                h = (('open', False, False), first, ('get', 'iter', n - 1, 0), ('copy', 0),
+                     ('get', 'slice', 0, 1), ('get', 'neg', n - 1, 0), ('release', 0),
+                     ('release', 0), ('open', True, True), ('get', 'iter', n - 1, 0),
+                     ('get', 'key', n - 1, 0), ('release', 0))
+                run_life(ld, n, h, res)
+                res.count('large_lifecycles')
         res.sample({'n': 3, 'history': [list(op) for op in hs[5]],
                     'op_format': 'open(reuse, clear) | get(kind, index, handle) | copy(handle) | release(handle)'})
     else:
